@@ -536,14 +536,59 @@ pub fn check_state(p: &Props, ops: &[Op], info: &PlanInfo, obs: &Obs, last_only:
             }
         }
     }
+    if p.c04 {
+        for (n, r) in &obs.runs_by_pool {
+            out.push(v("C04", "run-count-depends-on-pool-size", format!("with a default pool of {} threads the run counters are {:?}, with an unbounded pool {:?}: {}", n, r, obs.runs, l.short())));
+        }
+    }
     if p.c13 {
         if let Some(e) = &obs.dispatch_panic {
             out.push(v("C13", "setup-dispose-panicked", e.clone()));
         }
+        // world side: exactly the default-provided resources are created, existing ones are untouched
+        let dflt: u8 = info.nodes.iter().fold(0, |m, n| m | n.defaults);
+        let want = |pre: Option<u64>, bit: u8| -> Option<u64> {
+            match pre {
+                Some(v) => Some(v),
+                None => {
+                    if dflt & bit != 0 {
+                        Some(0)
+                    } else {
+                        None
+                    }
+                }
+            }
+        };
+        for (mask, first, second, third, extra) in &obs.setup_worlds {
+            let pre = [if mask & 1 != 0 { Some(7_770u64) } else { None }, if mask & 2 != 0 { Some(7_772u64) } else { None }];
+            let exp = [want(pre[0], 1), want(pre[1], 4)];
+            let exp3 = [want(None, 1), want(None, 4)];
+            for (k, nm) in [(0usize, "A"), (1, "C")] {
+                if first[k] != exp[k] {
+                    let sig = match (pre[k], first[k]) {
+                        (Some(_), Some(_)) => "setup-clobbered-existing-resource",
+                        (Some(_), None) => "setup-removed-existing-resource",
+                        (None, None) => "setup-did-not-create-default",
+                        (None, Some(_)) => if exp[k].is_none() { "setup-created-unexpected-resource" } else { "setup-created-non-default-value" },
+                    };
+                    out.push(v("C13", sig, format!("resource {} after Dispatcher::setup is {:?}, expected {:?} (pre-inserted: {:?})", nm, first[k], exp[k], pre[k])));
+                }
+                if second[k] != first[k] {
+                    out.push(v("C13", "setup-not-idempotent", format!("a second setup changed resource {} from {:?} to {:?}", nm, first[k], second[k])));
+                }
+                if third[k] != exp3[k] {
+                    out.push(v("C13", "setup-after-remove-wrong", format!("setup; remove; setup leaves resource {} = {:?}, expected {:?}", nm, third[k], exp3[k])));
+                }
+            }
+            if *extra {
+                out.push(v("C13", "setup-created-unexpected-resource", "setup created a resource nobody declared through a default provider".to_string()));
+            }
+        }
         if let Some(su) = &obs.setups {
             for n in &info.nodes {
-                // batch controllers have no setup hook of their own
-                if n.kind != Kind::Batch && su[n.id] != 1 {
+                // batch controllers have no setup hook of their own; statically typed systems use the
+                // library's default setup (checked through the world above)
+                if n.kind != Kind::Batch && !n.is_static && su[n.id] != 1 {
                     out.push(v("C13", "setup-count", format!("system {} (depth {}) was set up {} times", n.id, n.depth, su[n.id])));
                 }
             }
